@@ -78,7 +78,7 @@ Print Assumptions wellformed_iff_empty_report.
 (* C11-1 (fixes/C11-1-delivery-enum.diff): bill/delivery.json carries "enum": "advice".
    When the fix is applied this list becomes [] - and must, because
    known_malformed_each_refuted below then fails for a stale entry. *)
-Definition known_malformed : list (bytes * bytes) := [ (bs "bill/delivery.json", bs "enum") ].
+Definition known_malformed : list (bytes * bytes) := [].   (* bill/delivery.json enum repaired (findings/C11.json, fixed) *)
 
 Theorem all_schemas_wellformed_except_known :
   files_wellformed_except known_malformed shipped_schema_json.
